@@ -306,9 +306,9 @@ def fragment(cls: int, l1: int, l2: int) -> bool:
 HARNESSES = [
     H(chain, shards=lambda tier: [("cls == %d" % c, "mi == %d" % m, "pattern == %d" % p)
                                   for c in (0, 1) for m in (0, 1, 2) for p in range(BOUNDS[tier]["hops"])],
-      timeout={"quick": 90, "thorough": 900}),
+      timeout={"quick": 200, "thorough": 900}),
     H(limits, shards=lambda tier: [("cls == %d" % c, "mi == %d" % m) for c in (0, 1) for m in (0, 1, 2)],
-      timeout={"quick": 90, "thorough": 900}),
+      timeout={"quick": 200, "thorough": 900}),
     H(fragment, shards=[("cls == 0",), ("cls == 1",)], timeout={"quick": 60, "thorough": 300}),
 ]
 
